@@ -62,3 +62,61 @@ void h_MemoryAbove__run(void)
   MemoryAbove__run(self, ctx);
   __CPROVER_assert(0, "canary: contract precondition satisfiable and function exit reachable");
 }
+
+/* ================= init(): the arguments this plugin declares (C12, C08) =================
+ * memory_above reads MemTotal first (from `meminfo_location` if given, else /proc/meminfo) because a `N%` threshold is a
+ * percentage of it; no MemTotal = initialisation failure.  Exactly one threshold is in force: `threshold_anon` if present
+ * (then `threshold` is ignored), else `threshold` - and it is REQUIRED ("either one of these must be specified"). */
+#include "init_common.h"
+DEF_PARSE(PluginArgParser)
+uset_CgroupPath PluginArgParser__parseCgroup(PluginConstructionContext c, str_t s);
+#define lambda_bind__MemoryAbove__init__lambda_addArgumentCustom(ctx) ((lambda_t)7)
+int64_t g_thr_base;
+#define lambda_bind__MemoryAbove__init__lambda_addArgumentCustom_2(p) (g_thr_base = *(p), (lambda_t)8)
+void PluginArgParser__addArgumentCustom__str_t_uset_CgroupPath_function_t__Bool(PluginArgParser p, str_t name, uset_CgroupPath dest, function_t fn, _Bool required)
+{ __CPROVER_assert(fn == (function_t)7, "the cgroup argument is parsed by PluginArgParser::parseCgroup with this plugin's construction context"); REG(name, (const void *)(long)dest, required, 1); }
+void PluginArgParser__addArgumentCustom__str_t_int64_t_function_t__Bool(PluginArgParser p, str_t name, int64_t *dest, function_t fn, _Bool required)
+{ __CPROVER_assert(fn == (function_t)8, "the threshold is parsed by the size-or-percent closure"); REG(name, dest, required, 1); }
+DEF_ADDARG(int, int)
+void PluginArgParser__addArgument__str_t__Bool__Bool(PluginArgParser p, str_t name, _Bool *dest, _Bool required) { REG(name, dest, required, 0); }
+_Bool g_args_has_loc, g_args_has_anon, g_mi_ok, g_mi_has_mem; int64_t g_mi_mem, g_mi_other; str_t g_args_loc, g_mi_path; uint64_t g_erased_thr, g_erased_loc;
+#define ARGS ((umap_str_t_str_t)11)
+#define MEMINFO ((umap_str_t_int64_t)12)
+uint64_t nondet_u64(void);
+mapit_pair_str_t_str_t umap_str_t_str_t__end(umap_str_t_str_t m) { mapit_pair_str_t_str_t it; it.map = m; it.n = 4; it.pos = 4; it.valid = 1; return it; }
+mapit_pair_str_t_str_t umap_str_t_str_t__find(umap_str_t_str_t m, str_t k)
+{ mapit_pair_str_t_str_t it; it.map = m; it.n = 4; it.valid = 1;
+  it.pos = (k == STR_meminfo_location) ? (g_args_has_loc ? 0 : 4) : ((k == STR_threshold_anon) ? (g_args_has_anon ? 1 : 4) : nondet_u64());
+  __CPROVER_assume(it.pos <= 4); return it; }
+_Bool mapit_pair_str_t_str_t__op_eq(mapit_pair_str_t_str_t a, mapit_pair_str_t_str_t b) { return a.pos == b.pos; }
+str_t umap_str_t_str_t__at(umap_str_t_str_t m, str_t k) { if (!(k == STR_meminfo_location && g_args_has_loc)) ghost_exc = EXC_out_of_range; return g_args_loc; }
+void umap_str_t_str_t__erase(umap_str_t_str_t m, str_t k) { if (k == STR_threshold) g_erased_thr = g_erased_thr + 1; if (k == STR_meminfo_location) g_erased_loc = g_erased_loc + 1; }
+maybe_umap_str_t_int64_t Fs__getMeminfo(str_t path)
+{ maybe_umap_str_t_int64_t r; g_mi_path = path; r.ok = g_mi_ok; r.val = MEMINFO; r.err = g_mi_ok ? 0 : 2; return r; }
+uint64_t umap_str_t_int64_t__count(umap_str_t_int64_t m, str_t k) { return (k == STR_MemTotal && g_mi_has_mem) ? 1 : 0; }
+int64_t *umap_str_t_int64_t__at_ref(umap_str_t_int64_t m, str_t k) { return k == STR_MemTotal ? &g_mi_mem : &g_mi_other; }
+#define MA_MI_OK (g_mi_ok && g_mi_has_mem)
+int MemoryAbove__init(MemoryAbove *self, umap_str_t_str_t args, PluginConstructionContext context)
+  __CPROVER_requires(__CPROVER_is_fresh(self, sizeof(*self)) && args == ARGS && ghost_exc == 0 && g_reg_n == 0 && g_parse_calls == 0 && g_erased_thr == 0 && g_erased_loc == 0)
+  __CPROVER_assigns(REG_ASSIGNS, self->is_anon_, g_thr_base, g_mi_path, g_erased_thr, g_erased_loc)
+  /* meminfo is read from the configured location, else /proc/meminfo; without MemTotal the plugin refuses to initialise */
+  __CPROVER_ensures(g_mi_path == (g_args_has_loc ? g_args_loc : STR__proc_meminfo))
+  __CPROVER_ensures(!MA_MI_OK ? (__CPROVER_return_value == 1 && g_reg_n == 0 && g_parse_calls == 0) : INIT_CORE(4)) /*@C12*/
+  /* percentages are relative to the full 64-bit MemTotal */ /*@C08,C12*/
+  __CPROVER_ensures(MA_MI_OK ? g_thr_base == g_mi_mem : 1)
+  /* exactly one threshold argument, required: threshold_anon (then `threshold` is dropped from the map) or threshold */ /*@C08,C12*/
+  __CPROVER_ensures(MA_MI_OK ? (HASREG(STR_cgroup, (long)self->cgroups_, 0) && HASREG(STR_duration, &self->duration_, 1) && HASREG(STR_debug, &self->debug_, 0) &&
+                                (g_args_has_anon ? (HASREG(STR_threshold_anon, &self->threshold_, 1) && self->is_anon_ == 1 && g_erased_thr == 1)
+                                                 : (HASREG(STR_threshold, &self->threshold_, 1) && self->is_anon_ == __CPROVER_old(self->is_anon_) && g_erased_thr == 0)) &&
+                                g_erased_loc == 1) : 1)
+  __CPROVER_ensures(ghost_exc == 0);
+void h_MemoryAbove__init(void) { MemoryAbove *self; PluginConstructionContext c; HAVOC_REG(); HAVOC(ghost_exc); HAVOC(g_args_has_loc); HAVOC(g_args_has_anon); HAVOC(g_mi_ok); HAVOC(g_mi_has_mem); HAVOC(g_mi_mem); HAVOC(g_args_loc);
+  g_erased_thr = 0; g_erased_loc = 0; MemoryAbove__init(self, ARGS, c); __CPROVER_assert(0, "canary: contract precondition satisfiable and function exit reachable"); }
+/* the registered threshold parser: Util::parseSizeOrPercent(str, &res, MemTotal) or invalid_argument */
+int64_t g_parse_out; int g_parse_rc; int64_t g_parse_base;
+int Util__parseSizeOrPercent(str_t s, int64_t *res, int64_t base) { g_parse_base = base; if (g_parse_rc == 0) *res = g_parse_out; return g_parse_rc; }
+int64_t MemoryAbove__init__lambda_addArgumentCustom_2(int64_t *memTotal, str_t str)
+  __CPROVER_requires(__CPROVER_is_fresh(memTotal, sizeof(*memTotal)) && ghost_exc == 0)
+  __CPROVER_assigns(ghost_exc, g_parse_base)
+  __CPROVER_ensures(g_parse_base == *memTotal && (g_parse_rc == 0 ? (ghost_exc == 0 && __CPROVER_return_value == g_parse_out) : ghost_exc == EXC_invalid_argument)) /*@C08,C12*/;
+void h_MemoryAbove__thr(void) { int64_t *b; str_t s; HAVOC(ghost_exc); HAVOC(g_parse_out); HAVOC(g_parse_rc); HAVOC(g_parse_base); MemoryAbove__init__lambda_addArgumentCustom_2(b, s); __CPROVER_assert(0, "canary: contract precondition satisfiable and function exit reachable"); }
